@@ -355,8 +355,11 @@ class Model:
                                     # Just assign without indexing
                                     val = value
                                 elif isinstance(value, list):
+                                    # An attribute declared on an array inside an
+                                    # array of components only spans the inner
+                                    # dimensions: use the trailing indices.
                                     val = value
-                                    for i in ind:
+                                    for i in ind[len(ind) - np.ndim(value) :]:
                                         val = val[i]
                                 elif isinstance(value, (ca.DM, np.ndarray)):
                                     val = value[ind]
